@@ -345,6 +345,10 @@ func (e *Env) write(name string, v interface{}) error {
 			if pv.Kind() != reflect.Ptr || pv.IsNil() {
 				return ErrFault
 			}
+			switch pv.Type().Elem().Kind() {
+			case reflect.Struct, reflect.Map, reflect.Slice, reflect.Array, reflect.Func, reflect.Ptr, reflect.Interface:
+				return ErrFault // the injected object cannot be replaced by a value
+			}
 			cv, ok := ConvertTo(v, pv.Type().Elem(), true)
 			if !ok {
 				return ErrUndefined
